@@ -125,6 +125,15 @@ void htp_connp_destroy(htp_connp_t *connp) {
         bstr_free(connp->out_header);
         connp->out_header = NULL;
     }
+
+    // The transactions are left intact; they must not keep a pointer to this parser.
+    if ((connp->conn != NULL) && (connp->conn->transactions != NULL)) {
+        for (size_t i = 0, n = htp_list_size(connp->conn->transactions); i < n; i++) {
+            htp_tx_t *tx = htp_list_get(connp->conn->transactions, i);
+            if (tx != NULL) tx->connp = NULL;
+        }
+    }
+
     free(connp);
 }
 
